@@ -1,6 +1,7 @@
 package network
 
 import (
+	"bufio"
 	"context"
 	"io"
 	"sync"
@@ -81,6 +82,16 @@ type verifStream struct {
 	closeErr error // result of (the last) Close
 	// reliable: Reset and Close succeed (used where the kernel discards their results syntactically)
 	reliable bool
+	// writeErr: what every Write on the stream answers (nil: the bytes are accepted)
+	writeErr error
+}
+
+func (s *verifStream) Write(p []byte) (int, error) {
+	s.log.add("write")
+	if s.writeErr != nil {
+		return 0, s.writeErr
+	}
+	return len(p), nil
 }
 
 func (s *verifStream) Protocol() protocol.ID { return s.proto }
@@ -152,6 +163,7 @@ type verifHost struct {
 	gate   chan bool // true: this attempt succeeds
 	stream *verifStream
 	errs   []error // error returned by the i-th failed call (own identity each)
+	cap    int     // configured number of stream-open attempts (0: not set)
 }
 
 func (h *verifHost) ID() peer.ID { return h.id }
@@ -165,7 +177,13 @@ func (h *verifHost) nCalls() int {
 func (h *verifHost) NewStream(ctx context.Context, p peer.ID, pids ...protocol.ID) (network.Stream, error) {
 	h.mu.Lock()
 	h.calls = append(h.calls, verifOpenCall{ctx: ctx, p: p, protos: append([]protocol.ID{}, pids...), cancelled: ctx.Err() != nil})
+	n := len(h.calls)
 	h.mu.Unlock()
+	if h.cap > 0 {
+		// checked where the excess attempt is made, so that an unbounded retry loop is reported at
+		// once instead of being unrolled to the loop bound
+		zz.Assert(n <= h.cap, "no more than the configured number of stream-open attempts")
+	}
 	var ok bool
 	if h.gate != nil {
 		ok = <-h.gate
@@ -220,6 +238,15 @@ func verifBackoffAttempt(b *backoff.Backoff) float64 {
 	return float64(verifBackoffCalls[b])
 }
 
+//verif:stub (*github.com/jpillora/backoff.Backoff).ForAttempt verifBackoffForAttempt
+
+// ForAttempt(n) is the duration Duration() would return for attempt n without advancing the counter.
+func verifBackoffForAttempt(b *backoff.Backoff, attempt float64) time.Duration {
+	d := time.Duration(zz.Int64("backoff.forAttempt"))
+	zz.Assume(d > 0)
+	return d
+}
+
 // ---- network under test ----------------------------------------------------
 
 // verifBackoffWait is the (native) length of every backoff wait: with Min == Max the real backoff
@@ -242,6 +269,7 @@ func verifLetKernelRun() {
 // verifNetwork builds the kernel object directly (struct literal, no libp2p host needed).
 func verifNetwork(h *verifHost, attempts int, protos []protocol.ID) *libp2pDataTransferNetwork {
 	verifBackoffCalls = map[*backoff.Backoff]int{}
+	h.cap = attempts
 	return &libp2pDataTransferNetwork{
 		host:                  h,
 		openStreamTimeout:     time.Hour,
@@ -267,7 +295,6 @@ type verifMsg struct {
 	convErr                                               error
 	convProtos                                            []protocol.ID
 	writers                                               []io.Writer
-	writeErr                                              error
 }
 
 func (m *verifMsg) IsRequest() bool                     { return m.isReq }
@@ -278,11 +305,57 @@ func (m *verifMsg) IsPaused() bool                      { return m.isPaused }
 func (m *verifMsg) IsCancel() bool                      { return m.isCancel }
 func (m *verifMsg) TransferID() datatransfer.TransferID { return m.tid }
 func (m *verifMsg) ToIPLD() datamodel.Node              { return nil }
+
+// ToNet encodes the message onto w: one small write whose outcome is the writer's.
 func (m *verifMsg) ToNet(w io.Writer) error {
 	m.writers = append(m.writers, w)
 	m.log.add("tonet")
-	return m.writeErr
+	_, err := w.Write([]byte{0xa0})
+	return err
 }
+
+// ---- bufio contract (engine only; natively the real bufio runs) --------------------------------
+//
+// bufio.Writer: Write buffers (messages here are far below the 4 KiB buffer) and reports no
+// error; Flush hands the buffered bytes to the underlying writer in one Write and reports ITS
+// error; nothing reaches the underlying writer without a Flush.
+
+//verif:stub bufio.NewWriter verifBufioNewWriter
+//verif:stub (*bufio.Writer).Write verifBufioWrite
+//verif:stub (*bufio.Writer).Flush verifBufioFlush
+
+type verifBufState struct {
+	w   io.Writer
+	buf []byte
+}
+
+var verifBufs map[*bufio.Writer]*verifBufState
+
+func verifBufioNewWriter(w io.Writer) *bufio.Writer {
+	bw := new(bufio.Writer)
+	if verifBufs == nil {
+		verifBufs = map[*bufio.Writer]*verifBufState{}
+	}
+	verifBufs[bw] = &verifBufState{w: w}
+	return bw
+}
+
+func verifBufioWrite(bw *bufio.Writer, p []byte) (int, error) {
+	st := verifBufs[bw]
+	st.buf = append(st.buf, p...)
+	return len(p), nil
+}
+
+func verifBufioFlush(bw *bufio.Writer) error {
+	st := verifBufs[bw]
+	if len(st.buf) == 0 {
+		return nil
+	}
+	_, err := st.w.Write(st.buf)
+	st.buf = nil
+	return err
+}
+
 func (m *verifMsg) MessageForProtocol(p protocol.ID) (datatransfer.Message, error) {
 	m.convProtos = append(m.convProtos, p)
 	if m.conv == nil {
